@@ -71,6 +71,7 @@ type Gen struct {
 	curBlock *ssa.BasicBlock
 	curSt    *State
 	sharedSet map[string]bool
+	fnFresh  bool
 	thenMid  *State
 	curInstr ssa.Instruction
 	exits    []exitPoint
@@ -564,11 +565,20 @@ func (g *Gen) loopMods(li *loopInfo) (comps map[string]bool, dirty map[string]bo
 	freshVal = func(v ssa.Value) bool {
 		switch x := v.(type) {
 		case *ssa.Alloc:
-			return li.blocks[x.Block()]
+			if !li.blocks[x.Block()] {
+				g.fnFresh = true // allocated by this function, but before the loop
+			}
+			return true
 		case *ssa.MakeSlice:
-			return li.blocks[x.Block()]
+			if !li.blocks[x.Block()] {
+				g.fnFresh = true
+			}
+			return true
 		case *ssa.MakeMap:
-			return li.blocks[x.Block()]
+			if !li.blocks[x.Block()] {
+				g.fnFresh = true
+			}
+			return true
 		case *ssa.IndexAddr:
 			return freshVal(x.X)
 		case *ssa.FieldAddr:
